@@ -205,6 +205,11 @@ C02(scn, obs) ==
       \* "when the client's ... compression is acceptable it is kept": only when the
       \* client really sent compressed data does a kept compression have to show
       \cup (IF d.enc \in {"", SrvComp(cfg, scn.cl.comp)} THEN {} ELSE {"C02.CompKept"})
+      \* ... and it does have to show then: a client that sent compressed messages in a compression the
+      \* service accepts is not answered by silently dropping the compression on the backend leg
+      \cup (IF NormComp(scn.cl.comp) # "" /\ SrvComp(cfg, scn.cl.comp) = scn.cl.comp /\ ~ClientFaulty(scn)
+               /\ (\E i \in DOMAIN scn.cl.frames : scn.cl.frames[i].z) /\ d.enc # scn.cl.comp
+            THEN {"C02.AcceptableCompKept"} ELSE {})
       \cup (IF d.bad = <<>> THEN {} ELSE {"C02.HeadValid"})
       \cup (IF d.form = "grpc" => d.major = 2 THEN {} ELSE {"C02.GrpcHttp2"})
       \cup (IF d.form = "connect_get" => (d.http = "GET" /\ mi.nse) THEN {} ELSE {"C02.GetOnlyNse"})
